@@ -664,3 +664,7 @@ mod tests {
         assert_eq!(limits.pto_jitter_percentage(), 15);
     }
 }
+
+#[cfg(all(aws_s2n_quic_verif, test))]
+#[path = "/verif/harness/core/limits.rs"]
+mod verif;
